@@ -246,6 +246,8 @@ def arg_bytes(args):
             out += b"K" + bytes([a])
         elif a is None:
             out += b"N"
+        elif isinstance(a, bytes) and len(a) < 256:
+            out += b"C" + bytes([len(a)]) + a
         else:
             raise ValueError(a)
     return out
